@@ -797,6 +797,8 @@ class Interp:
             return [(it.start + k, x) for k, x in enumerate(inner)]
         if isinstance(it, zip):
             return list(it)
+        if type(it).__name__ in ('dict_items', 'dict_keys', 'dict_values'):
+            return list(it)
         if isinstance(it, str):
             return list(it)
         raise EngineError('cannot iterate over %r' % (it,))
